@@ -68,7 +68,7 @@ theorem setop_layout (c : Ctx) (base : Query) (ops : List (Str × Query)) (obs :
         (renderQuery { (setopCtx c base.fl) with subquery := base.fl.wrapSetOps } base ++
          renderOps { (setopCtx c base.fl) with subquery := base.fl.wrapSetOps } base.selects.length ops ++
          opt (!obs.isEmpty) (kws " ORDER BY " :: joinDocs (K ",")
-           (renderOrderBy { (setopCtx c base.fl) with quote := .given (setopCtx c base.fl).q } base.selects none obs)) ++
+           (renderOrderBy { (setopCtx c base.fl) with quote := .given (setopCtx c base.fl).q } base.selects (setopCtx c base.fl).aq obs)) ++
          setopPaginate limit offset) ++
       opt c.withAlias (aliasDoc (setopCtx c base.fl) (setopCtx c base.fl).q alias) := renderSetOp_eq_1 c
 
